@@ -660,7 +660,6 @@ func wrapMain(args []string) error {
 						s.runSplit, s.dirs = []int{0, (wl + 1) * (k / 2)}, []int{0, 0}
 					}
 					count++
-					sh := count % shards
 					unit := s.totalPx() / len(text)
 					for pdir := 0; pdir <= 0; pdir++ {
 						for pol := 0; pol <= 2; pol++ {
@@ -671,6 +670,9 @@ func wrapMain(args []string) error {
 									sc := wrapScenario{id: s.key(), cls: "long", text: s.text, build: s.build, lvls: levelsFor(s.dirs, pdir),
 										cfg: wCfg{Pdir: pdir, Pol: pol, Trunc: 0, Tadv: 64, Tdir: pdir}, width: w, api: api}
 									sc.syn = &s
+									// one paragraph per shard where possible: each meets a wrapper whose line storage is still
+									// at its initial capacity, and the monitor's work (quadratic in the paragraph) is spread
+									sh := paras % shards
 									runScenario(sw.encs[sh], lws[sh], sc)
 									paras++
 								}
